@@ -21,6 +21,7 @@ package c23
 
 import (
 	"context"
+	"runtime/debug"
 	"crypto/rsa"
 	"crypto/x509"
 	"encoding/binary"
@@ -63,7 +64,7 @@ func TestMain(m *testing.M) {
 	ev.Main(m)
 }
 
-var rec = ev.For("C23", "rapid-generated programs of 2-12 NewClient/ApplyConfig calls, each with 0-6 (thorough 0-10) Option constructors drawn from all 35 of config.go with drawn arguments (fixture keys/certificates, temp files, fresh user dialers, endpoints with token policies), about a third of the constructions without options; non-trivial = a construction with options is followed by a construction without options; distinct by hash of the program")
+var rec = ev.For("C23", "rapid-generated programs of 2-12 NewClient/ApplyConfig calls, each with 0-6 (thorough 0-10) Option constructors drawn from all 35 of config.go with drawn arguments (fixture keys/certificates, temp files, fresh user dialers, endpoints with token policies), about a third of the constructions without options; a quarter of the NewClient constructions also dial a local UACP listener once (Acknowledge with drawn buffer sizes and limits; Hello/Acknowledge completes, then the listener closes); non-trivial = a construction with options is followed by a construction without options; distinct by hash of the program")
 
 // ---------------------------------------------------------------------------
 // case data (plain JSON, replayable)
@@ -109,6 +110,11 @@ type stepT struct {
 	Ctor     string `json:"ctor"` // NewClient | ApplyConfig
 	Endpoint string `json:"endpoint_url,omitempty"`
 	Opts     []optT `json:"opts"`
+	// Connect (NewClient only): the client is built for a local UACP listener
+	// that answers the Hello with this Acknowledge {ReceiveBufSize, SendBufSize,
+	// MaxChunkCount, MaxMessageSize} and then closes the connection; the
+	// client dials it once (Hello/Acknowledge happens, OpenSecureChannel fails).
+	Connect *[4]uint32 `json:"connect_to_listener_with_ack,omitempty"`
 }
 
 type caseT struct {
@@ -596,6 +602,11 @@ var stepGen = rapid.Custom(func(t *rapid.T) stepT {
 		s.Endpoint = rapid.SampledFrom([]string{"opc.tcp://localhost:4840", "opc.tcp://plc.invalid:4841/ua", ""}).Draw(t, "endpoint")
 	}
 	s.Opts = []optT{}
+	if s.Ctor == "NewClient" && rapid.IntRange(0, 3).Draw(t, "connect") == 0 {
+		bufs := rapid.SampledFrom([]uint32{8192, 8192, 16384, 65535, 1 << 20})
+		lim := rapid.SampledFrom([]uint32{0, 0, 1, 5, 4096, 1 << 20})
+		s.Connect = &[4]uint32{bufs.Draw(t, "lnRecv"), bufs.Draw(t, "lnSend"), lim.Draw(t, "lnChunks"), lim.Draw(t, "lnMsg")}
+	}
 	if rapid.IntRange(0, 2).Draw(t, "plain") == 0 {
 		return s // construction without options
 	}
@@ -826,6 +837,7 @@ func runProgram(c caseT) (res result) {
 
 	var ents []entity
 	optSeen, plainAfterOpt, errCtor, limitOpt, userDialer := false, false, false, false, false
+	connected, dialPanics := 0, 0
 	for i, st := range c.Steps {
 		var opts []opcua.Option
 		for _, o := range st.Opts {
@@ -853,12 +865,61 @@ func runProgram(c caseT) (res result) {
 		var plainBase Snap
 		var plainParts []named
 		var cerr error
+		var dial func() // Connect steps: dials the listener once, after the construction itself was judged
 		panicked := func() (p any) {
 			defer func() { p = recover() }()
 			switch st.Ctor {
 			case "NewClient":
 				var cl *opcua.Client
-				cl, cerr = opcua.NewClient(st.Endpoint, opts...)
+				endpoint := st.Endpoint
+				var ln *uacp.Listener
+				if st.Connect != nil {
+					a := *st.Connect
+					l, err := uacp.Listen(context.Background(), "opc.tcp://127.0.0.1:0", &uacp.Acknowledge{ReceiveBufSize: a[0], SendBufSize: a[1], MaxChunkCount: a[2], MaxMessageSize: a[3]})
+					if err == nil {
+						ln = l
+						endpoint = "opc.tcp://" + l.Addr().String()
+						go func() {
+							actx, cancel := context.WithTimeout(context.Background(), 5*time.Second)
+							defer cancel()
+							if sc, err := l.Accept(actx); err == nil {
+								sc.Close()
+							}
+						}()
+					}
+				}
+				cl, cerr = opcua.NewClient(endpoint, opts...)
+				if ln != nil {
+					// uacp allocates the whole receive buffer for every frame it
+					// reads: a step that asks for a huge buffer is not dialled
+					hugeBuf := false
+					for _, o := range st.Opts {
+						if o.Name == "ReceiveBufferSize" && (o.N > 4<<20 || o.N < 8192) {
+							hugeBuf = true // below the protocol minimum: uacp.Receive panics (outside C23, see DESIGN 10.4)
+						}
+						if o.Name == "Dialer" && o.Dialer != nil && (o.Dialer.Kind == "fresh" || o.Dialer.Kind == "no-netdialer") && (o.Dialer.ACK[0] > 4<<20 || o.Dialer.ACK[0] < 8192) {
+							hugeBuf = true
+						}
+					}
+					dial = func() {
+						defer ln.Close()
+						if cl == nil || cerr != nil || hugeBuf {
+							return
+						}
+						connected++
+						defer func() {
+							if r := recover(); r != nil {
+								dialPanics++ // not what C23 is about (C21/C25)
+								if os.Getenv("VERIF_C23_DEBUG") != "" {
+									fmt.Printf("dial panic: %v\n%s\n", r, debug.Stack())
+								}
+							}
+						}()
+						dctx, cancel := context.WithTimeout(context.Background(), 3*time.Second)
+						defer cancel()
+						_ = cl.Dial(dctx)
+					}
+				}
 				if cl != nil {
 					parts = clientParts(cl, true)
 					plainParts, plainBase = clientParts(cl, false), baseClient
@@ -914,6 +975,23 @@ func runProgram(c caseT) (res result) {
 		} else {
 			optSeen = true
 		}
+		if dial != nil {
+			// What dialling does to the client's OWN configuration is not C23's
+			// business (its snapshot is taken afterwards); what it does to the
+			// defaults and to the other clients is.
+			dial()
+			where := fmt.Sprintf("after the client of step %d %s dialled a listener with Acknowledge %v", i, describe(st), *st.Connect)
+			if d := diff(baseDefaults, snapDefaults()); d != "" {
+				res.msg = fmt.Sprintf("%s the package defaults changed: %s", where, d)
+				return
+			}
+			for _, e := range ents {
+				if d := diff(e.snap, snapParts(true, e.parts...)); d != "" {
+					res.msg = fmt.Sprintf("%s the configuration built in step %d %s changed: %s", where, e.step, e.what, d)
+					return
+				}
+			}
+		}
 		if parts != nil {
 			ents = append(ents, entity{step: i, what: describe(st), parts: parts, snap: snapParts(true, parts...)})
 		}
@@ -957,6 +1035,12 @@ func runProgram(c caseT) (res result) {
 	}
 	if userDialer {
 		res.classes = append(res.classes, "has-user-dialer")
+	}
+	if connected > 0 {
+		res.classes = append(res.classes, "has-client-that-dialled-a-listener")
+	}
+	if dialPanics > 0 {
+		res.classes = append(res.classes, "dial-panicked(ignored)")
 	}
 	return
 }
